@@ -13,7 +13,7 @@ from fractions import Fraction as Fr
 from lib.rat import R, F, close, dev
 
 ID = "C05"
-QUICK_N = 1500
+QUICK_N = 1200
 THOROUGH_N = 12000
 QUICK_BUDGET_S = 80
 THOROUGH_BUDGET_S = 900
@@ -33,7 +33,18 @@ RULE = ("in-memory charts over the five layouts: 1-8 (rarely up to 1294) 4/4 tem
         "caller-owned dict used for all writes of the script and edited in place between two writes (lane added / removed / two "
         "lanes swapped): model and by-the-book denotation are given the layout as it is at that write, and the writer must not "
         "modify the dict; long charts: a first tempo segment of 985-1000 measures at a high tempo with objects and tempo points "
-        "in measures 988-999 (and, outside the domain: D36, in measures >= 1000); non-trivial = at least 2 tempo points with an "
+        "in measures 988-999 (and, outside the domain: D36, in measures >= 1000); HOW THE CHART IS OBTAINED: half of the cases "
+        "hand the writer a chart that did not come from the constructors — the chart built in memory is written once with a SOURCE "
+        "layout (any of the five) and read back through BMSMap.read / BMSMap.read_file with that layout passed by position, by "
+        "keyword or (BME) left to the default argument, or its rows are put into an osu!/Quaver chart and converted with "
+        "OsuToBMS / QuaToBMS; then optionally deep-copied, rated (1.0, 2.0, 0.5), edited (hits shifted, title / play level renamed, "
+        "lists replaced by copies); the chart that results — rows, header fields, sample table, other keys as they are on the object "
+        "— is what model and judge are given; EVERY WRITE NAMES ITS LAYOUT: each write / write_file of the script has its own layout "
+        "(any of the five, columns drawn from the lanes common to all layouts involved) handed over by position, by keyword or "
+        "(BME table) by the default argument, several writes of one object with different layouts in a row; the written bytes are "
+        "judged under the layout in force at THAT write; beyond objects and tempo the judge demands that an object whose in-memory "
+        "sample is a file of the chart's #WAV table is denoted with exactly that sample, and that the file's title / artist / play "
+        "level are the in-memory ones (D46 when the chart's other keys shadow them); non-trivial = at least 2 tempo points with an "
         "object after the second, or an off-grid object, or a hold")
 ASSUMPTIONS = [
     "pandas row LABELS are outside the model (the writer model sees rows by position); they are exercised by the harness: "
@@ -43,6 +54,12 @@ ASSUMPTIONS = [
     "the harness compares the numbers",
     "pandas groupby/sort_values/iterrows are modelled as list operations; row order inside one (measure, channel, den) "
     "group is unspecified (numpy quicksort) and only matters for colliding objects, which the property excludes",
+]
+ASSUMPTIONS += [
+    "a 'hold' whose tail is not after its head (the library's reader makes one from a text whose head and marker sit on split "
+    "lines: D05) is outside the property's quantifier",
+    "header text fields are compared only when they are plain bytes without line breaks or leading white space; trailing white "
+    "space is stripped by every reader (bms_write_read_header states rstrip)",
 ]
 TRUSTED_EXTRA = ["the denotation of the written bytes uses the lexer shared with the reader model (Spec/BMS.lean)"]
 
@@ -146,9 +163,45 @@ def edit_lanes(lanes, e):
 LONG_BPMS = [240.0, 480.0, 960.0, 1920.0, 300.0, 375.0, 600.0]
 
 
+SRC_POSTS = ["deepcopy", "rate1", "rate2", "rate_half", "edit_hits", "edit_title", "copy_lists"]
+
+
+def gen_src(rng, layout):
+    """how the chart handed to write is OBTAINED: None = built in memory; otherwise through a real entry point —
+    written once as text with the source layout and read back with `read` / `read_file` (layout passed by position, by
+    keyword or left to the default argument), or converted from another game — and then optionally deep-copied, rated,
+    edited"""
+    r = rng.random()
+    if r < 0.5:
+        return None
+    post = []
+    while rng.random() < 0.35 and len(post) < 3:
+        post.append(rng.choice(SRC_POSTS))
+    if r < 0.93:
+        sl = rng.choice(list(LAYOUT_COLS))
+        if rng.random() < 0.15:
+            sl = layout
+        arg = rng.choice(["pos", "kw", "default"] if sl == "BME" else ["pos", "kw"])
+        return dict(via=rng.choice(["read", "read", "read_file"]), layout=sl, arg=arg, post=post)
+    return dict(via=rng.choice(["osu", "qua"]), post=post)
+
+
+def gen_warg(rng, layout, lay):
+    """how the layout is handed to one write: by position, by keyword, or (the BME table only) by the default argument"""
+    if layout == "BME" and lay["mode"] == "const":
+        return rng.choice(["pos", "kw", "default", "default"])
+    return rng.choice(["pos", "pos", "kw"])
+
+
 def gen(rng, tier, i):
     layout = rng.choice(list(LAYOUT_COLS))
-    ncol = LAYOUT_COLS[layout]
+    src = gen_src(rng, layout)
+    # the layouts of the later writes of the script (several writes of one object with different layouts in a row)
+    more_layouts = [rng.choice(list(LAYOUT_COLS)) for _ in range(3)] if rng.random() < 0.6 else [layout] * 3
+    if src is not None and src.get("layout") and src["layout"] != "BME" and rng.random() < 0.3:
+        layout = "BME"                      # a good share: obtained with another layout, written with the default table
+    involved = [layout] + more_layouts + ([src["layout"]] if src and src.get("layout") else [])
+    ncol = min(LAYOUT_COLS[l] for l in involved)
     n_b = rng.choice([1, 1, 2, 2, 3, 4, 6, 8])
     if rng.random() < (0.004 if tier == "quick" else 0.01):
         n_b = rng.choice([40, 200]) if tier == "quick" else rng.choice([40, 200, 900, 1294, 1295])
@@ -187,7 +240,10 @@ def gen(rng, tier, i):
             variant = gen_layout_edit(rng, layout, set(range(ncol)), lanes_now)
             lanes_now = edit_lanes(lanes_now, variant)
         lay = dict(mode=mode, variant=variant)
-    cols_pool = [c for _, c in lanes_now] or [0]
+    multi = lay["mode"] == "const" or (lay["mode"] == "fresh" and lay["variant"] == ["copy"])
+    if not multi:
+        more_layouts = [layout] * 3
+    cols_pool = [c for _, c in lanes_now if c < ncol] or [0]
     bpms = [[R(float(s)), R(b)] for s, b, _ in segs]
     lnobj = "ZZ" if rng.random() < 0.6 else rid(rng, avoid=("01",))
     samples = {}
@@ -306,7 +362,17 @@ def gen(rng, tier, i):
             ops = ops[:k] + [le] + ops[k:]
         else:
             ops = ops + [le, rng.choice(["write", "write_file"])]
-    return dict(claim="write", layout=layout, lay=lay, ops=ops, hist=hist, title=hx(rng.choice(["song", "a b  c", "x:y #1"])), artist=hx(rng.choice(["me", "A feat. B"])),
+    # every write of the script names its layout and the way it is handed over
+    k_w = 0
+    for j, o in enumerate(ops):
+        if isinstance(o, str):
+            wl = layout if k_w == 0 else more_layouts[(k_w - 1) % 3]
+            ops[j] = dict(w=o, layout=wl, arg=gen_warg(rng, wl, lay))
+            k_w += 1
+    if multi and k_w == 1 and rng.random() < 0.35:
+        for wl in more_layouts[:rng.choice([1, 2, 3])]:
+            ops.append(dict(w=rng.choice(["write", "write", "write_file"]), layout=wl, arg=gen_warg(rng, wl, lay)))
+    return dict(claim="write", layout=layout, lay=lay, src=src, ops=ops, hist=hist, title=hx(rng.choice(["song", "a b  c", "x:y #1"])), artist=hx(rng.choice(["me", "A feat. B"])),
                 version=hx(rng.choice(["3", "12", ""])), ln_end=hx(lnobj), samples=[[hx(k), hx(v)] for k, v in samples.items()],
                 misc=misc, bpms=bpms, hits=hits, holds=holds, no_sample_default=hx("01"))
 
@@ -353,6 +419,23 @@ def corpus():
                   ops=["write", dict(layout_edit=["reduce", 12]), "write_file", dict(layout_edit=["extend", hx("19"), 3]), "write"]))
     c.append(dict({**base, **five}, layout="PMS_5B", lay=dict(mode="owned", variant=["swap", 0, 4]),
                   ops=["write", dict(layout_edit=["extend", hx("2A"), 9]), dict(edit="hits_cols", k=0), "write"]))
+    five = dict(bpms=[[R(0), R(150)], [R(1600), R(75)]], hits=[[k, hx("k.wav" if k == 2 else ""), R(400.0 * k)] for k in range(5)],
+                holds=[[4, hx("k.wav"), R(2400), R(800)], [0, hx("zz"), R(800), R(400)]])
+    # charts OBTAINED through the readers with every layout (by position / keyword / default argument), then written with
+    # every layout — explicitly, by keyword, by default argument; several writes of one object with different layouts
+    for k_s, sl in enumerate(LAYOUT_COLS):
+        w = [dict(w="write", layout="BME", arg="default"), dict(w="write_file", layout="BME", arg="pos"), dict(w="write", layout="BME", arg="kw")]
+        w += [dict(w=("write", "write_file")[(k_s + j) % 2], layout=wl, arg=("pos", "kw")[(k_s + j) % 2]) for j, wl in enumerate(LAYOUT_COLS)]
+        w += [dict(w="write_file", layout="BME", arg="default")]
+        c.append(dict({**base, **five}, layout="BME", src=dict(via=("read", "read_file")[k_s % 2], layout=sl, arg=("pos", "kw")[k_s % 2], post=[]), ops=w))
+        c.append(dict({**base, **five}, layout="BME", src=dict(via="read", layout=sl, arg="kw", post=["deepcopy", "rate2"]),
+                      ops=[dict(w="write", layout="BME", arg="pos")]))
+    c.append(dict({**base, **five}, layout="BME", src=dict(via="read_file", layout="BME", arg="default", post=["edit_title"]),
+                  ops=[dict(w="write", layout="PMS", arg="pos"), dict(w="write", layout="BME", arg="default")]))
+    c.append(dict({**base, **five}, layout="PMS", src=dict(via="osu", post=[]), ops=[dict(w="write", layout="PMS", arg="kw"), dict(w="write", layout="BME", arg="default")]))
+    c.append(dict({**base, **five}, layout="PMS_5B", src=dict(via="qua", post=["rate1"]), ops=[dict(w="write_file", layout="PMS_5B", arg="pos")]))
+    # in-memory chart, several writes with different layouts in a row
+    c.append(dict({**base, **five}, layout="PMS", ops=[dict(w="write", layout=wl, arg="pos") for wl in ("PMS", "BME", "PMS_5B", "BMS", "PMS_BME", "BME")]))
     # the last addressable measure: objects and a tempo point in measure 999 (240 bpm: 1000 ms per measure)
     c.append(dict(base, bpms=[[R(0), R(240)]], hits=[[1, hx(""), R(998000.0)], [2, hx("k.wav"), R(999000.0)], [3, hx(""), R(999750.0)],
                                                      [1, hx(""), R(999000.0 + 1000.0 / 3)], [5, hx(""), R(999123.4)]],
@@ -387,6 +470,24 @@ def valid(case):
                 return False
         for o in (case.get("ops") or []):
             if not (o in ("write", "write_file") or isinstance(o, dict)):
+                return False
+            if isinstance(o, dict) and "w" in o:
+                if o["w"] not in ("write", "write_file") or o.get("layout", case["layout"]) not in LAYOUT_COLS:
+                    return False
+                if o.get("arg", "pos") not in ("pos", "kw", "default"):
+                    return False
+                if o.get("arg") == "default" and not (o.get("layout", case["layout"]) == "BME" and lay.get("mode") == "const"):
+                    return False
+        src = case.get("src")
+        if src is not None:
+            if not isinstance(src, dict) or src.get("via") not in ("read", "read_file", "osu", "qua"):
+                return False
+            if src["via"] in ("read", "read_file"):
+                if src.get("layout") not in LAYOUT_COLS or src.get("arg", "pos") not in ("pos", "kw", "default"):
+                    return False
+                if src.get("arg") == "default" and src["layout"] != "BME":
+                    return False
+            if not all(p_ in SRC_POSTS for p_ in (src.get("post") or [])):
                 return False
         for o, b in case["bpms"]:
             if F(b) <= 0:
@@ -511,11 +612,26 @@ def build_map(case):
     return m
 
 
+def _bx(x):
+    """header bytes of a chart as hex (charts converted from another game may carry str)"""
+    if isinstance(x, (bytes, bytearray)):
+        return bytes(x).hex()
+    if isinstance(x, str):
+        return x.encode("shift_jis", "replace").hex()
+    return (b"\x00" + repr(x).encode("ascii", "replace")).hex()
+
+
+def _sx(x):
+    """a row's sample as hex; a sample that is not bytes (a chart converted from another game has a float column) is no
+    file name of the #WAV table: it is given to the model as a name no table can contain"""
+    return bytes(x).hex() if isinstance(x, (bytes, bytearray)) else (b"\x00" + repr(x).encode("ascii", "replace")).hex()
+
+
 def rows_of(m):
     """the rows of the built lists, in ROW ORDER (positions), as exact values: what the model is given"""
     bpms = [[R(float(b)), R(float(mt)), R(float(o))] for o, b, mt in zip(m.bpms.offset, m.bpms.bpm, m.bpms.metronome)]
-    hits = [[int(c), bytes(s).hex(), R(float(o))] for c, s, o in zip(m.hits.column, m.hits.sample, m.hits.offset)]
-    holds = [[int(c), bytes(s).hex(), R(float(o)), R(float(o) + float(g))]
+    hits = [[int(c), _sx(s), R(float(o))] for c, s, o in zip(m.hits.column, m.hits.sample, m.hits.offset)]
+    holds = [[int(c), _sx(s), R(float(o)), R(float(o) + float(g))]
              for c, s, o, g in zip(m.holds.column, m.holds.sample, m.holds.offset, m.holds.length)]
     return bpms, hits, holds
 
@@ -535,9 +651,9 @@ def snapshot(m):
     return dict(rows=rows_of(m),
                 labels=[list(map(str, l.df.index)) for l in (m.bpms, m.hits, m.holds)],
                 cols=[list(l.df.columns) for l in (m.bpms, m.hits, m.holds)],
-                head=[bytes(m.title).hex(), bytes(m.artist).hex(), bytes(m.version).hex(), bytes(m.ln_end_channel).hex()],
-                samples=[[bytes(k).hex(), bytes(v).hex()] for k, v in m.samples.items()],
-                misc=[[bytes(k).hex(), bytes(v).hex()] for k, v in m.misc.items()])
+                head=[_bx(m.title), _bx(m.artist), _bx(m.version), _bx(m.ln_end_channel)],
+                samples=[[_bx(k), _bx(v)] for k, v in m.samples.items()],
+                misc=[[_bx(k), _bx(v)] for k, v in m.misc.items()])
 
 
 def apply_layout_edit(cfg, e):
@@ -567,18 +683,28 @@ def laydef(cfg):
                 lanes=[[bytes(k).hex(), int(v)] for k, v in cfg.items() if isinstance(v, int)])
 
 
-def do_write(m, case, via, cfg=None):
+def do_write(m, case, via, cfg=None, arg="pos"):
+    """one call of the writer.  `arg`: the layout is handed over by position / by keyword / not at all (`default`: only
+    when `cfg` IS the module's BME table, the default argument of write and write_file)"""
     import os
     import tempfile
     BMSMap, BMSChannel, *_ = _imports()
     if cfg is None:
         cfg = getattr(BMSChannel, case["layout"])
+    if arg == "default" and cfg is not BMSChannel.BME:
+        arg = "pos"
     dflt = bytes.fromhex(case["no_sample_default"])
+    kw = {} if dflt == b"01" and arg == "default" else dict(no_sample_default=dflt)
     if via == "write_file":
         fd, path = tempfile.mkstemp(prefix="c05-", suffix=".bms")
         os.close(fd)
         try:
-            m.write_file(path, cfg, no_sample_default=dflt)
+            if arg == "default":
+                m.write_file(path, **kw)
+            elif arg == "kw":
+                m.write_file(file_path=path, note_channel_config=cfg, **kw)
+            else:
+                m.write_file(path, cfg, **kw)
             with open(path, "rb") as f:
                 return f.read()
         finally:
@@ -586,7 +712,114 @@ def do_write(m, case, via, cfg=None):
                 os.remove(path)
             except OSError:
                 pass
-    return m.write(cfg, no_sample_default=dflt)
+    if arg == "default":
+        return m.write(**kw)
+    if arg == "kw":
+        return m.write(note_channel_config=cfg, **kw)
+    return m.write(cfg, **kw)
+
+
+def obtain(m, case):
+    """the chart handed to the writer, obtained as `case["src"]` says: through `read` / `read_file` of a text (the chart
+    built in memory, written once with the source layout) with the source layout handed over by position / keyword /
+    default argument, or through a converter from another game; then deep-copied / rated / edited.  Returns (chart, tags);
+    when the source text cannot be made or read the in-memory chart is used."""
+    import copy
+    import os
+    import tempfile
+    src = case.get("src")
+    if not src:
+        return m, []
+    BMSMap, BMSChannel, *_ = _imports()
+    tags = []
+    try:
+        if src["via"] in ("read", "read_file"):
+            table = getattr(BMSChannel, src["layout"])
+            text = m.write(table, no_sample_default=bytes.fromhex(case["no_sample_default"]))
+            arg = src.get("arg", "pos")
+            if arg == "default" and table is not BMSChannel.BME:
+                arg = "pos"
+            if src["via"] == "read":
+                lines = text.decode("shift_jis").split("\r\n")
+                m2 = BMSMap.read(lines) if arg == "default" else (
+                    BMSMap.read(lines, note_channel_config=table) if arg == "kw" else BMSMap.read(lines, table))
+            else:
+                fd, path = tempfile.mkstemp(prefix="c05-src-", suffix=".bms")
+                try:
+                    with os.fdopen(fd, "wb") as f:
+                        f.write(text)
+                    m2 = BMSMap.read_file(path) if arg == "default" else (
+                        BMSMap.read_file(path, note_channel_config=table) if arg == "kw" else BMSMap.read_file(path, table))
+                finally:
+                    try:
+                        os.remove(path)
+                    except OSError:
+                        pass
+            tags.append(f"src:{src['via']}:{src['layout']}")
+            tags.append(f"src-arg:{arg}")
+        else:
+            m2 = convert_from(m, src["via"])
+            tags.append(f"src:{src['via']}")
+        m = m2
+    except Exception as e:
+        return m, ["src-failed:" + type(e).__name__]
+    for p_ in src.get("post") or []:
+        try:
+            if p_ == "deepcopy":
+                m = copy.deepcopy(m)
+            elif p_ == "rate1":
+                m = m.rate(1.0)
+            elif p_ == "rate2":
+                m = m.rate(2.0)
+            elif p_ == "rate_half":
+                m = m.rate(0.5)
+            elif p_ == "edit_hits" and len(m.hits):
+                m.hits.offset = m.hits.offset + 60000.0 / float(m.bpms.bpm.iloc[0])
+            elif p_ == "edit_title":
+                m.title = b"another title"
+                m.version = b"7"
+            elif p_ == "copy_lists":
+                m.hits = m.hits.deepcopy()
+                m.bpms = type(m.bpms)(m.bpms.df.copy())
+            tags.append("post:" + p_)
+        except Exception as e:
+            tags.append("post-failed:" + p_)
+    return m, tags
+
+
+def convert_from(m, via):
+    """the same rows as a chart of another game, converted to BMS by the library's converter"""
+    if via == "osu":
+        from reamber.osu.OsuMap import OsuMap as M
+        from reamber.osu.OsuHit import OsuHit as H
+        from reamber.osu.OsuHold import OsuHold as L
+        from reamber.osu.OsuBpm import OsuBpm as B
+        from reamber.osu.lists.OsuBpmList import OsuBpmList as BL
+        from reamber.osu.lists.notes.OsuHitList import OsuHitList as HL
+        from reamber.osu.lists.notes.OsuHoldList import OsuHoldList as LL
+        from reamber.algorithms.convert.OsuToBMS import OsuToBMS as Conv
+    else:
+        from reamber.quaver.QuaMap import QuaMap as M
+        from reamber.quaver.QuaHit import QuaHit as H
+        from reamber.quaver.QuaHold import QuaHold as L
+        from reamber.quaver.QuaBpm import QuaBpm as B
+        from reamber.quaver.lists.QuaBpmList import QuaBpmList as BL
+        from reamber.quaver.lists.notes.QuaHitList import QuaHitList as HL
+        from reamber.quaver.lists.notes.QuaHoldList import QuaHoldList as LL
+        from reamber.algorithms.convert.QuaToBMS import QuaToBMS as Conv
+    o = M()
+    kw = dict(keysounds=[]) if via == "qua" else {}
+    o.hits = HL([H(offset=float(t), column=int(c), **kw) for t, c in zip(m.hits.offset, m.hits.column)])
+    o.holds = LL([L(offset=float(t), column=int(c), length=float(g), **kw) for t, c, g in zip(m.holds.offset, m.holds.column, m.holds.length)])
+    o.bpms = BL([B(offset=float(t), bpm=float(b)) for t, b in zip(m.bpms.offset, m.bpms.bpm)])
+    o.title, o.artist = "song", "me"
+    if via == "osu":
+        o.version = "v"
+    else:
+        o.difficulty_name = "v"
+    out = Conv.convert(o)
+    out.ln_end_channel = m.ln_end_channel
+    return out
 
 
 def apply_edit(m, e, ncol):
@@ -624,20 +857,29 @@ def run(case, drv):
             except Exception:
                 pass
             m = build_map(case)
+            m, src_tags = obtain(m, case)
             BMSChannel = _imports()[1]
             lay = case.get("lay") or dict(mode="const")
-            table = getattr(BMSChannel, case["layout"])
             owned = None
             pm = build_map(POISON_CHART) if lay["mode"] == "fresh" else None
+            wl_all = [(o.get("layout") or case["layout"]) if isinstance(o, dict) else case["layout"]
+                      for o in ops if not isinstance(o, dict) or "w" in o]
+            src_l = (case.get("src") or {}).get("layout")
+            ncol_eff = min(LAYOUT_COLS[l] for l in wl_all + [case["layout"]] + ([src_l] if src_l in LAYOUT_COLS else []))
+            prev_layout = src_l
             for step, op in enumerate(ops):
-                if isinstance(op, dict):
+                if isinstance(op, dict) and "w" not in op:
                     if "layout_edit" in op:
                         if owned is not None:
                             apply_layout_edit(owned, op["layout_edit"])       # the caller edits its own dict
                         continue
-                    apply_edit(m, op, LAYOUT_COLS[case["layout"]])
+                    apply_edit(m, op, ncol_eff)
                     continue
+                via, wl, arg = (op, case["layout"], "pos") if isinstance(op, str) else (op["w"], op.get("layout") or case["layout"], op.get("arg", "pos"))
                 # the layout dict handed to this write
+                if lay["mode"] == "owned":
+                    wl = case["layout"]
+                table = getattr(BMSChannel, wl)
                 if lay["mode"] == "const":
                     cfg = table
                 elif lay["mode"] == "owned":
@@ -646,7 +888,7 @@ def run(case, drv):
                     cfg = owned
                 else:
                     # built on the spot, right after another chart was written with a temporary dict of ANOTHER table
-                    other = [n for n in LAYOUT_COLS if n != case["layout"]][(step + len(case["hits"])) % 4]
+                    other = [n for n in LAYOUT_COLS if n != wl][(step + len(case["hits"])) % 4]
                     tmp = dict(getattr(BMSChannel, other))
                     try:
                         do_write(pm, POISON_CHART, "write", tmp)
@@ -660,16 +902,19 @@ def run(case, drv):
                 before = snapshot(m)
                 dflt_labels = labels_default(m)
                 try:
-                    b = do_write(m, case, op, cfg)
+                    b = do_write(m, case, via, cfg, arg)
                     impl4 = ("ok", b.split(b"\r\n"), before["rows"], dflt_labels)
                 except Exception as e:
                     impl4 = ("err", err_class(e), before["rows"], dflt_labels)
                 after = snapshot(m)
                 cfg_after = list(cfg.items())
                 logging.disable(logging.NOTSET)
-                r = judge(case, drv, impl4, ld)
+                r = judge(case, drv, impl4, ld, layout=wl, head=before)
                 logging.disable(logging.CRITICAL)
-                r["tags"] = list(r.get("tags", [])) + [f"op:{op}", f"lay:{lay['mode']}"] + ([f"step{step}"] if step else [])
+                r["tags"] = list(r.get("tags", [])) + [f"op:{via}", f"lay:{lay['mode']}", f"arg:{arg}"] + ([f"step{step}"] if step else []) + src_tags
+                if prev_layout is not None and prev_layout != wl:
+                    r["tags"].append("layout-differs-from-previous-call" if step else "layout-differs-from-read")
+                prev_layout = wl
                 if ld is not None:
                     r["tags"].append("layout:" + (lay.get("variant") or ["copy"])[0])
                     if any(isinstance(o, dict) and "layout_edit" in o for o in ops[:step]) and owned is not None:
@@ -721,8 +966,13 @@ def run_impl(case):
         logging.disable(logging.NOTSET)
 
 
-def model_chart(case, rows):
+def model_chart(case, rows, head=None):
+    """the chart the model is given: the rows in row order and the header fields / tables AS THEY ARE on the chart object
+    at the moment of the write (`head`: its snapshot; a chart obtained through read carries the file's header)"""
     bpms, hits, holds = rows
+    if head is not None:
+        t, a, v, ln = head["head"]
+        return dict(title=t, artist=a, version=v, ln_end=ln, samples=head["samples"], misc=head["misc"], bpms=bpms, hits=hits, holds=holds)
     return dict(title=case["title"], artist=case["artist"], version=case["version"], ln_end=case["ln_end"],
                 samples=case["samples"], misc=case["misc"], bpms=bpms, hits=hits, holds=holds)
 
@@ -759,18 +1009,31 @@ def group(rows, key_n):
     return {k: sorted(v) for k, v in g.items()}
 
 
-def judge(case, drv, impl4, ld=None):
+def judge(case, drv, impl4, ld=None, layout=None, head=None):
     """one write, judged against the chart as it was when the writer was called (`impl4[2]`: its rows in row order) and
-    the layout as it was at that call (`ld`: a caller-built dict, `None` = the module table `case["layout"]`)"""
-    layout = case["layout"]
+    the layout IN FORCE AT THAT CALL (`layout`: the module table named at this write; `ld`: a caller-built dict)"""
+    layout = layout or case["layout"]
     cols = set(range(LAYOUT_COLS[layout])) if ld is None else {c for _, c in ld["lanes"]}
     impl = impl4[:2]
     # the chart as built (rows in ROW ORDER after the history): what the writer was given
     r_bpms, r_hits, r_holds = impl4[2]
     chart = dict(bpms=[[o, b] for b, _mt, o in r_bpms], hits=[[c, s_, o] for c, s_, o in r_hits],
                  holds=[[c, s_, o, R(F(t) - F(o))] for c, s_, o, t in r_holds])
-    m = drv.call("c05.write", layout=layout, layout_def=ld, no_sample_default=case["no_sample_default"], chart=model_chart(case, impl4[2]))
+    m = drv.call("c05.write", layout=layout, layout_def=ld, no_sample_default=case["no_sample_default"], chart=model_chart(case, impl4[2], head))
     facts = m["facts"]
+    mc = model_chart(case, impl4[2], head)
+    # the chart's sample table and text fields as they are at this write (hex)
+    table_files = {v for _k, v in mc["samples"]}
+
+    def known(sx):
+        """a sample that is a file of the chart's #WAV table and survives the reader's strip (non-empty, no white space at
+        its ends): its written object id must point back to it"""
+        if sx not in table_files or not sx:
+            return None
+        b_ = bytes.fromhex(sx)
+        return sx if (b_.strip() == b_ and b_ and b"\r" not in b_ and b"\n" not in b_) else None
+    head_keys = {bytes.fromhex(k) for k, _v in mc["misc"]}
+    d46 = bool(head_keys & {b"TITLE", b"ARTIST", b"PLAYLEVEL"})
     tags = [layout, f"bpms{min(len(chart['bpms']), 4)}"]
     if not impl4[3]:
         tags.append("row-labels-non-default")
@@ -815,7 +1078,9 @@ def judge(case, drv, impl4, ld=None):
                    for (o1, b1), (o2, _) in zip(sb[:-1], sb[1:]))
     quantified = on_lines and not facts["collision"] and all(f is not None for f in all_facts) \
         and all(c in cols for c, *_ in chart["hits"] + chart["holds"]) and len(chart["bpms"]) < 1295 \
-        and (ld is None or len({c for _, c in ld["lanes"]}) == len(ld["lanes"]))
+        and (ld is None or len({c for _, c in ld["lanes"]}) == len(ld["lanes"])) \
+        and all(F(g) > 0 for _c, _s, _o, g in chart["holds"])      # a "hold" whose tail is not after its head (the library's
+    #                                                                 reader makes one from a text whose lines split) is no hold
     kf = None
     if not quantified:
         tags.append("outside-quantifier")
@@ -833,6 +1098,7 @@ def judge(case, drv, impl4, ld=None):
         s_valid = all(valid_flags)
         den = drv.call("c04.denote", layout=layout, layout_def=ld, lines=[l.hex() for l in lines])["ok"]["den"]
         s_hits = s_holds = s_tempo = False
+        s_samples = s_head = True
         why = []
         if den is None:
             why.append("the written text has no by-the-book meaning")
@@ -849,6 +1115,27 @@ def judge(case, drv, impl4, ld=None):
             s_holds = set(wanth) == set(goth) and all(len(wanth[k]) == len(goth[k]) for k in wanth) and all(
                 abs(w[0] - g[0]) <= w[2] + abs(w[0]) * EPS and abs(w[1] - g[1]) <= w[3] + abs(w[1]) * EPS
                 for k in wanth for w, g in zip(wanth[k], goth[k]))
+            # samples: an object whose in-memory sample is a file of the #WAV table is denoted with exactly that sample
+            if s_hits and s_holds:
+                wants = group([(c, F(o), known(s_) or "") for (c, s_, o) in chart["hits"]], 1)
+                gots = group([(h[0], F(h[2]), h[1]) for h in den["hits"]], 1)
+                wantsh = group([(c, F(o), known(s_) or "") for (c, s_, o, g) in chart["holds"]], 1)
+                gotsh = group([(h[0], F(h[2]), h[1]) for h in den["holds"]], 1)
+                s_samples = all(not w[1] or w[1] == g[1] for k in wants for w, g in zip(wants[k], gots[k])) and \
+                    all(not w[1] or w[1] == g[1] for k in wantsh for w, g in zip(wantsh[k], gotsh[k]))
+                if any(w[1] for k in wants for w in wants[k]) or any(w[1] for k in wantsh for w in wantsh[k]):
+                    tags.append("known-samples")
+            # text fields of the header: title / artist / version as the file gives them (the reader strips the line)
+            hd = den["header"]
+            want_head = [bytes.fromhex(x).rstrip().hex() for x in (mc["title"], mc["artist"], mc["version"])]
+            got_head = [hd["title"], hd["artist"], hd["version"]]
+            plain = all(b"\r" not in bytes.fromhex(x) and b"\n" not in bytes.fromhex(x) and bytes.fromhex(x).lstrip() == bytes.fromhex(x)
+                        and not bytes.fromhex(x).startswith(b"\x00") for x in (mc["title"], mc["artist"], mc["version"]))
+            s_head = (want_head == got_head) or not plain
+            if not s_samples:
+                why.append("samples")
+            if not s_head:
+                why.append("header fields")
             # tempo timeline: the denoted changes (the measure-0 object replaces the header tempo), as (time, bpm)
             tempo = den["tempo"]
             if len(tempo) > 1 and tempo[1][2][0] == 0 and F(tempo[1][2][1]) == 0:
@@ -867,13 +1154,17 @@ def judge(case, drv, impl4, ld=None):
                 why.append("tempo timeline")
         if not s_valid:
             why.append("invalid data line")
-        ok = s_valid and s_hits and s_holds and s_tempo
+        ok = s_valid and s_hits and s_holds and s_tempo and s_samples and s_head
         if not ok:
             detail["spec"] = dict(why=why, lines=[l.decode("latin-1")[:100] for l in lines][:30],
                                   denotation=None if den is None else dict(hits=[(h[0], float(F(h[2]))) for h in den["hits"]][:20],
                                                                            holds=[(h[0], float(F(h[2])), float(F(h[3]))) for h in den["holds"]][:20],
-                                                                           tempo=[(float(F(t[0])), t[2][0], str(F(t[2][1]))) for t in den["tempo"]][:10]))
-            if d31:
+                                                                           tempo=[(float(F(t[0])), t[2][0], str(F(t[2][1]))) for t in den["tempo"]][:10],
+                                                                           header=[den["header"][k] for k in ("title", "artist", "version")],
+                                                                           chart_header=[mc["title"], mc["artist"], mc["version"]]))
+            if s_valid and s_hits and s_holds and s_tempo and s_samples and not s_head and d46:
+                kf = "D46"
+            elif d31:
                 kf = "D35"
             elif d06:
                 kf = "D06"
@@ -883,7 +1174,7 @@ def judge(case, drv, impl4, ld=None):
                 kf = "D37"
     if facts["max_measure"] >= 988:
         tags.append("measure-999" if facts["max_measure"] == 999 else ("measures>=1000" if facts["max_measure"] >= 1000 else "measures-988-998"))
-    for flag, name in ((d31, "d31-pred"), (d06, "d06-pred"), (d32, "d32-pred"), (d33, "d33-pred"), (off_grid, "off-grid"), (bool(chart["holds"]), "holds")):
+    for flag, name in ((d31, "d31-pred"), (d06, "d06-pred"), (d32, "d32-pred"), (d33, "d33-pred"), (off_grid, "off-grid"), (bool(chart["holds"]), "holds"), (d46, "d46-pred")):
         if flag:
             tags.append(name)
     in_dom = bool(quantified and facts["on_measure_lines"] and not d31 and not d06 and not d32 and not d33)
